@@ -705,7 +705,7 @@ func checkC20(c *Ctx, r *Report) {
 				isO := strings.Contains(a, `"Origin")`)
 				isS := strings.Contains(a, `"Sec-Fetch-Site")`)
 				switch {
-				case isO && strings.HasSuffix(a, `==""`):
+				case isO && strings.HasSuffix(a, `==""`) && !strings.Contains(a, "Parse(") && !strings.Contains(a, ".Host"):
 					return "originEmpty"
 				case isS && strings.HasSuffix(a, `==""`):
 					return "siteEmpty"
@@ -713,6 +713,14 @@ func checkC20(c *Ctx, r *Report) {
 					return "sameOrigin"
 				case isS && strings.HasSuffix(a, `=="same-site"`):
 					return "sameSite"
+				case isS && strings.HasSuffix(a, `=="none"`):
+					return "siteNone"
+				case isO && strings.Contains(a, ".Host") && strings.HasSuffix(a, `.Host==""`):
+					return "originHostEmpty"
+				case isO && strings.Contains(a, ".Host") && strings.Contains(a, "$r.Host"):
+					return "originIsHost" // the Origin's authority compared with the host that was addressed
+				case isO && strings.Contains(a, "Parse(") && strings.HasSuffix(a, "#1==nil"):
+					return "originParses"
 				case strings.HasSuffix(a, `.Method=="OPTIONS"`):
 					return "options"
 				}
@@ -729,7 +737,7 @@ func checkC20(c *Ctx, r *Report) {
 					v := specVars(as, classify)
 					// one header value cannot equal two different constants
 					nSite := 0
-					for _, k := range []string{"siteEmpty", "sameOrigin", "sameSite"} {
+					for _, k := range []string{"siteEmpty", "sameOrigin", "sameSite", "siteNone"} {
 						if v[k] {
 							nSite++
 						}
@@ -752,7 +760,33 @@ func checkC20(c *Ctx, r *Report) {
 							break
 						}
 					}
-					want := (v["originEmpty"] || v["siteEmpty"] || v["sameOrigin"] || v["sameSite"]) && !(v["options"] && !v["originEmpty"])
+					// cross-site = the browser says so (Sec-Fetch-Site present and not same-origin / same-site / none), or, where
+					// the browser sends no Fetch Metadata, the Origin names another host than the one addressed
+					sameBySite := v["sameOrigin"] || v["sameSite"] || v["siteNone"]
+					// the comparison may be spelled out: the Origin parses, has an authority, and that authority is the host
+					hasClass := func(cl string) bool {
+						for _, a := range atoms {
+							if classify(a) == cl {
+								return true
+							}
+						}
+						return false
+					}
+					matches := v["originIsHost"]
+					if hasClass("originParses") && !v["originParses"] {
+						matches = false
+					}
+					if hasClass("originHostEmpty") && v["originHostEmpty"] {
+						matches = false
+					}
+					if v["originEmpty"] && (v["originIsHost"] || (hasClass("originParses") && !v["originParses"])) {
+						continue // an absent Origin has nothing to parse or compare
+					}
+					if hasClass("originHostEmpty") && v["originHostEmpty"] && v["originIsHost"] {
+						continue // an empty authority equals no addressed host
+					}
+					sameByOrigin := v["siteEmpty"] && (v["originEmpty"] || matches)
+					want := (sameBySite || sameByOrigin) && !(v["options"] && !v["originEmpty"])
 					if reach != want {
 						badRows = append(badRows, fmt.Sprintf("[%s] reaches the handler=%v, want %v", lits(as).String(), reach, want))
 					}
@@ -763,7 +797,7 @@ func checkC20(c *Ctx, r *Report) {
 			if len(badRows) > 3 {
 				badRows = append(badRows[:3], fmt.Sprintf("… %d more rows", len(badRows)-3))
 			}
-			r.Check(len(badRows) == 0, "C20.R6", "Harden: cross-site predicate table", c.InstrPos(next), fmt.Sprintf("%d rows over %v", nRows, atoms), "the gate in front of the API handlers opens for requests it must refuse (or depends on an input other than 'no Origin' / Sec-Fetch-Site absent, same-origin, same-site / preflight): "+strings.Join(badRows, "; "))
+			r.Check(len(badRows) == 0, "C20.R6", "Harden: cross-site predicate table", c.InstrPos(next), fmt.Sprintf("%d rows over %v", nRows, atoms), "the gate in front of the API handlers opens for cross-site requests (a request is same-site iff Sec-Fetch-Site is same-origin / same-site / none, or — without Fetch Metadata — it has no Origin or its Origin names the addressed host; preflights are refused): "+strings.Join(badRows, "; "))
 		}
 	}
 }
